@@ -205,7 +205,7 @@ pub fn property() -> Property {
         subchecks: vec![SubCheck {
             name: "finite-nonnegative",
             rule: "G-MAP(realistic: times within hours, coordinates near the playfield, AR/CS/OD/HP in [0,10]) with the degenerate families explicit (empty, single object, all spinners, N copies at one position and time, 11 ms spacing, one object per minute, first object before 0) x mods (all representations) x clock rates in [0.5,2] x overrides in [0,11] x a passed_objects prefix x 1-4 score states consistent with the prefix's counts (incl. zero-hit). Oracle: every f64 of difficulty attributes, strains and performance attributes finite; everything except AR/OD/HP/CS/hit-window fields >= 0; accuracy in [0,1] for every origin; zero total hits => every pp field == 0. Non-trivial: non-empty map and a state with >=1 hit.",
-            quick: 20_000,
+            quick: 80_000,
             thorough: 400_000,
             tape_len: 1600,
             f: case,
